@@ -252,7 +252,7 @@ pub fn run(args: &Args) -> Report {
     }
 
     // --- concurrent histories
-    let nhist = if miri { args.n(12, 40) } else { args.n(3_000, 150_000) };
+    let nhist = if miri { args.n(12, 40) } else { args.n(3_000, 20_000) };
     let mut overlapped = 0u64;
     let mut inconclusive = 0u64;
     let mut distinct_growth_checks = 0u64;
